@@ -24,7 +24,8 @@ CONSTANTS
 
 Prov(k)  == IF k = "s" THEN {"s1", "s2"} ELSE {k}
 Base     == {"p"}                \* a plain parameter, always available
-Ghost    == {"zz"}               \* a name nobody provides
+Ghost    == {"zz"} \cup (Comps \cap {"s"})   \* names nobody provides: "zz", and the two-output provider's OWN name
+                                            \* (a label, never a value: only its outputs s1, s2 are provided)
 Provided == UNION {Prov(k) : k \in Comps}
 Names    == Provided \cup Base \cup Ghost
 
